@@ -4,6 +4,11 @@
      look12 x<bytes> (c ...)         -> (g ...)                       S_lookup12
      dec0 x<bytes>                   -> err | panic | (ok x<256 bytes>)
      dec6 MAC x<bytes>               -> err | panic | (ok (k g) ...)
+     edges4 ((k g) ...) (v ...)      -> (((first last delta vals) ...) ...)   M_edges at each v
+     emit4 LANG ((k g) ...) ((first last delta vals) ...)
+                                     -> (ok x<bytes> P) | (panic P)   M_emit4, P = path_ok from 0
+     dec4 MAC x<bytes>               -> err | panic | (ok (k g) ...)
+     look4 x<bytes> (c ...)          -> ((some g) | none ...)          S_lookup4
 *)
 let sx_pairs (x : sx) : (n * n) list =
   List.map (fun p -> match p with L [k; g] -> (sx_n k, sx_n g) | _ -> failwith "bad pair") (lst x)
@@ -20,6 +25,19 @@ let outcome_sx (f : 'a -> sx) (o : 'a outcome) : sx =
 
 let ident (x : n) : n = x
 
+(* a Go map[uint16]glyph.ID as a total function *)
+let fun_of_pairs (m : (n * n) list) : n -> n =
+  let arr = Array.make 65536 N0 in
+  List.iter (fun (k, g) -> let i = int_of_n k in if i < 65536 then arr.(i) <- g) m;
+  fun c -> let i = int_of_n c in if i < 65536 then arr.(i) else N0
+
+let sx_seg (x : sx) : seg4 =
+  match x with
+  | L [f; l; d; v] -> { s_first = sx_n f; s_last = sx_n l; s_delta = sx_n d; s_vals = sx_bool v }
+  | _ -> failwith "bad segment"
+
+let seg_sx (s : seg4) : sx = L [an s.s_first; an s.s_last; an s.s_delta; ab s.s_vals]
+
 let () = main_loop (fun c ->
   match c with
   | [A "enc12"; lang; m] ->
@@ -34,4 +52,21 @@ let () = main_loop (fun c ->
   | [A "dec6"; mac; data] ->
     if sx_bool mac then failwith "mac not supported yet" else
     outcome_sx (fun m -> L (A "ok" :: pairs_sx m)) (m_decode6 ident (sx_bytes data))
+  | [A "edges4"; m; vs] ->
+    let f = fun_of_pairs (sx_pairs m) in
+    L (List.map (fun v -> L (List.map seg_sx (m_edges f (sx_n v)))) (lst vs))
+  | [A "emit4"; lang; m; segs] ->
+    let f = fun_of_pairs (sx_pairs m) in
+    let segs = List.map sx_seg (lst segs) in
+    let p = ab (path_ok f N0 segs) in
+    (match m_emit4 f segs (sx_n lang) with
+     | Ok b -> L [A "ok"; A (hex_of_bytes b); p]
+     | Panic -> L [A "panic"; p]
+     | _ -> A "unexpected")
+  | [A "dec4"; mac; data] ->
+    if sx_bool mac then failwith "mac not supported yet" else
+    outcome_sx (fun m -> L (A "ok" :: pairs_sx m)) (m_decode4 ident (sx_bytes data))
+  | [A "look4"; data; cs] ->
+    let d = sx_bytes data in
+    L (List.map (fun c -> match s_lookup4 d (sx_n c) with Some g -> L [A "some"; an g] | None -> A "none") (lst cs))
   | _ -> failwith "bad case")
